@@ -28,7 +28,14 @@ struct quiescent_state_based::thread_data {
     if (std::any_of(retire_lists.begin(), retire_lists.end(), [](auto p) { return p != nullptr; })) {
       // global_epoch - 1 (mod number_epochs) guarantees a full cycle, making sure no
       // other thread may still have a reference to an object in one of the retire lists.
-      auto target_epoch = (global_epoch.load(std::memory_order_relaxed) + number_epochs - 1) % number_epochs;
+      // The target epoch has to be derived from the CURRENT global epoch: a plain (relaxed) load may return an
+      // older value this thread has seen before, which makes the orphan reclaimable one epoch too early - while
+      // a thread that entered its region in the current epoch may still use one of the nodes. The CAS reads
+      // the latest value in the modification order of global_epoch (same idiom as in ensure_has_control_block).
+      auto epoch = global_epoch.load(std::memory_order_relaxed);
+      while (!global_epoch.compare_exchange_weak(epoch, epoch, std::memory_order_acq_rel, std::memory_order_relaxed)) {
+      }
+      auto target_epoch = (epoch + number_epochs - 1) % number_epochs;
       assert(target_epoch < number_epochs);
       global_thread_block_list.abandon_retired_nodes(new detail::orphan<number_epochs>(target_epoch, retire_lists));
     }
